@@ -5,5 +5,23 @@ CHECKS = {
         "note": "bounded populations (K customers per stream), dyadic menus, horizon T; observation through the public tracker seam",
         "technique": "stateless exhaustive enumeration of environment answers of the real implementation (explicit choice-point DFS, deviation-bounded)",
     },
+    "C02": {
+        "text": "Every answer sequence of the focused families (ties everywhere, zero durations, pre-emption x reneging, pre-emptive schedules x blocking, slotted nodes with arrivals at t=0) and every sequence with at most D deviations of the universal feature-combination family is executed; after every event the clock, every pending date and every new data record are checked.",
+        "ref": "DESIGN.md §7 C02",
+        "note": "dyadic menus (exact float arithmetic), bounded populations and horizon; pending dates read from documented attributes",
+        "technique": "stateless exhaustive enumeration of environment answers of the real implementation, per-event invariant monitor",
+    },
+    "C03": {
+        "text": "Record chains of every customer are checked after every event of every explored execution (focused routing/blocking/pre-emption/reneging families completely, universal family up to the deviation bound) against the arrival instants and routing decisions observed at the seams.",
+        "ref": "DESIGN.md §7 C03",
+        "note": "bounded populations and horizon; birth node/instant from the arrival event seen at the node_class seam",
+        "technique": "stateless exhaustive enumeration of environment answers of the real implementation, per-customer journey oracle",
+    },
+    "C14": {
+        "text": "Every documented feature alone and in all compatible pairs (triples in the thorough tier) on three topologies, with every entry point (max_time at/between/after event instants, max_customers x 4 methods), every answer sequence with at most D deviations: no exception escapes and the stop condition is exact.",
+        "ref": "DESIGN.md §7 C14",
+        "note": "valid = documented combinations accepted by create_network; deviation bound D; executions cut by the harness event bound are not judged on the stop condition",
+        "technique": "deviation-bounded exhaustive enumeration of environment answers over a combinatorial configuration family, real implementation",
+    },
 }
 PENDING = {}
